@@ -80,10 +80,6 @@ Proof.
 Qed.
 
 (* ------------------------------------------------------------------ values *)
-Definition value_c (c : ascii) : bool := negb (is_space_c c) && negb (Ascii.eqb c ",").
-(* a printed value: not empty, no white space, no comma (numbers, identifiers, strings of word characters) *)
-Definition value_ok (v : string) : bool := match v with EmptyString => false | _ => sforall value_c v end.
-
 Lemma value_ok_last v : value_ok v = true -> last_ok v = true.
 Proof.
   intros H. assert (Hs : sforall value_c (srev v) = true).
@@ -112,15 +108,6 @@ Lemma value_ok_chars v : value_ok v = true -> sforall value_c v = true.
 Proof. destruct v; [discriminate|auto]. Qed.
 
 (* ------------------------------------------------------------------ the sentence of a fact *)
-Definition fact_sig (e : xentity) : signature := {| sg_entity := e; sg_subjects := []; sg_verb := None; sg_objects := [] |}.
-Definition item_prefix (name : string) (a : xattr) : string := "with " ++ strip (removeprefix name (xattr_str a)) ++ " equal to ".
-Definition fact_body (name : string) (attrs : list xattr) : string :=
-  match attrs with [a] => x_value a | _ => join ", " (map (fun a => item_prefix name a ++ x_value a) attrs) end.
-
-(* a concept name as the sentence shows it: no leading white space or underscore (names are letter-initial identifiers) *)
-Definition name_ok (n : string) : bool :=
-  match n with String c _ => negb (is_space_c c) && negb (Ascii.eqb c "_") | EmptyString => false end.
-
 Lemma entity_printer_body name attrs :
   entity_printer name attrs = strip (replace_underscore name ++ " " ++ fact_body name attrs).
 Proof.
